@@ -256,7 +256,8 @@ def r3_collect(repo, report):
                   expected="an isinstance branch of _collect_modifier reads every tally of the class", loc=repo.loc(fn),
                   why="" if covered else f"{cname} keeps {attrs} but _collect_modifier has no branch for it")
     # slot routing: (0, m._modifier1), (1, m._modifier2); (0, adapter_cutter1), (1, adapter_cutter2); PairedAdapterCutter i -> adapter_statistics[i]
-    lists = [n for n in ast.walk(fn) if isinstance(n, ast.Assign) and chain(n.targets[0]) == "modifiers_list" and isinstance(n.value, ast.List)]
+    lists = [n for n in ast.walk(fn) if isinstance(n, ast.Assign) and isinstance(n.targets[0], ast.Name) and isinstance(n.value, ast.List) and n.value.elts
+             and all(isinstance(e, ast.Tuple) and len(e.elts) == 2 and isinstance(e.elts[0], ast.Constant) and isinstance(e.elts[0].value, int) for e in n.value.elts)]
     bad = []
     for l in lists:
         for e in l.value.elts:
